@@ -345,8 +345,13 @@ func TestVerifC12LimiterRace(t *testing.T) {
 		}
 	}
 
+	c12rlRoute(rep, a, string(hash))
+
 	if !rep.Violated() {
 		var low []string
+		if v := rep.Events["route_bursts_with_attempts_in_flight_together"]; v < verifkit.Pick(10, 100) {
+			low = append(low, fmt.Sprintf("route bursts with attempts in flight together=%d", v))
+		}
 		if v := rep.Events["handler_rounds_with_overlapping_evaluated_failures"]; v < hRounds/4 {
 			low = append(low, fmt.Sprintf("handler rounds with overlapping evaluated failures=%d<%d", v, hRounds/4))
 		}
@@ -358,6 +363,178 @@ func TestVerifC12LimiterRace(t *testing.T) {
 		}
 		if len(low) > 0 {
 			rep.Inconcl("too few monitor events: " + strings.Join(low, ", "))
+		}
+	}
+}
+
+// c12rlRoute is level 3: bursts through the real route.  The product's own
+// registration (RegisterAuthHandlers) is applied to a fresh ServeMux, so the
+// requests pass exactly the wrapper chain the product uses for POST
+// /control/login.  K > max-attempts bad logins from one address are sent
+// together, with password hashes slow enough for the attempts to be in flight
+// at the same time.  Throttling exists to stop guessing: an address gets at
+// most max-attempts evaluated guesses per block period, also when it sends
+// them in parallel; the others must be answered 429.
+func c12rlRoute(rep *verifkit.Report, a *Auth, minHash string) {
+	rng := rep.Rand("route")
+	oldMux, oldWeb, oldFirst := globalContext.mux, globalContext.web, globalContext.firstRun
+	defer func() { globalContext.mux, globalContext.web, globalContext.firstRun = oldMux, oldWeb, oldFirst }()
+	globalContext.mux = http.NewServeMux()
+	globalContext.firstRun = false
+	if globalContext.web == nil {
+		globalContext.web = &webAPI{}
+	}
+	var pan any
+	func() {
+		defer func() { pan = recover() }()
+		RegisterAuthHandlers()
+	}()
+	if pan != nil {
+		rep.Inconcl(fmt.Sprintf("RegisterAuthHandlers panicked: %v", pan))
+		return
+	}
+	mux := globalContext.mux
+
+	// A user whose hash makes one comparison take roughly 10-40 ms in this
+	// binary (default cost if that fits, lower otherwise).
+	cost := bcrypt.DefaultCost
+	probe, _ := bcrypt.GenerateFromPassword([]byte("x"), bcrypt.DefaultCost)
+	t0 := time.Now()
+	_ = bcrypt.CompareHashAndPassword(probe, []byte("y"))
+	per := time.Since(t0)
+	for per > 40*time.Millisecond && cost > bcrypt.MinCost {
+		cost--
+		per /= 2
+	}
+	slow, err := bcrypt.GenerateFromPassword([]byte("pw-slow"), cost)
+	if err != nil {
+		rep.Inconcl("bcrypt: " + err.Error())
+		return
+	}
+	rep.EventN("route_bcrypt_cost", cost)
+	a.lock.Lock()
+	a.users = []webUser{{Name: "admin", PasswordHash: minHash}, {Name: "slow", PasswordHash: string(slow)}}
+	a.lock.Unlock()
+
+	send := func(raddr, name, pw string) (code int) {
+		body, _ := json.Marshal(map[string]string{"name": name, "password": pw})
+		r := httptest.NewRequest(http.MethodPost, "/control/login", bytes.NewReader(body))
+		r.RemoteAddr = raddr
+		r.Header.Set("Content-Type", "application/json")
+		w := httptest.NewRecorder()
+		mux.ServeHTTP(w, r)
+		return w.Code
+	}
+
+	bursts := verifkit.Pick(40, 400)
+	for b := 0; b < bursts; b++ {
+		max := []int{1, 2, 3, 3, 5}[rng.Intn(5)]
+		a.rateLimiter = newAuthRateLimiter(c12rlBlock, uint(max))
+		nAddr := 1 + rng.Intn(2)
+		var atts []c12rlAttempt
+		addrs := make([]string, nAddr)
+		for j := range addrs {
+			addrs[j] = fmt.Sprintf("10.%d.%d.%d", 200+j, (b>>8)&255, b&255)
+			k := max + 1 + rng.Intn(12)
+			for x := 0; x < k; x++ {
+				kind := "wrong-password"
+				if rng.Intn(6) == 0 {
+					kind = "unknown-user"
+				}
+				atts = append(atts, c12rlAttempt{Addr: addrs[j], Kind: kind})
+			}
+		}
+		rng.Shuffle(len(atts), func(x, y int) { atts[x], atts[y] = atts[y], atts[x] })
+		var ready, done sync.WaitGroup
+		start := make(chan struct{})
+		var rel time.Time
+		ready.Add(len(atts))
+		done.Add(len(atts))
+		for x := range atts {
+			go func(q *c12rlAttempt, port int) {
+				defer done.Done()
+				ready.Done()
+				<-start
+				name, pw := "slow", "pw-slowx"
+				if q.Kind == "unknown-user" {
+					name = "nobody"
+				}
+				q.StartNS = int64(time.Since(rel))
+				q.Status = send(fmt.Sprintf("%s:%d", q.Addr, port), name, pw)
+				q.EndNS = int64(time.Since(rel))
+			}(&atts[x], 21000+x)
+		}
+		ready.Wait()
+		rel = time.Now()
+		close(start)
+		done.Wait()
+
+		rep.Event("route_bursts")
+		together := false
+		var sig []string
+		for _, ad := range addrs {
+			evaluated, blocked, k := 0, 0, 0
+			var iv [][2]int64
+			for _, q := range atts {
+				if q.Addr != ad {
+					continue
+				}
+				k++
+				iv = append(iv, [2]int64{q.StartNS, q.EndNS})
+				switch q.Status {
+				case http.StatusForbidden, http.StatusOK:
+					evaluated++
+				case http.StatusTooManyRequests:
+					blocked++
+				default:
+					rep.Violate("limiterrace:unexpected-status:through-the-route", fmt.Sprintf("a bad login was answered %d", q.Status),
+						map[string]any{"burst": b, "attempts": atts})
+				}
+			}
+			if c12rlOverlap(iv) {
+				together = true
+			}
+			rep.EventN("route_attempts_evaluated", evaluated)
+			rep.EventN("route_attempts_blocked", blocked)
+			sig = append(sig, fmt.Sprintf("K%d:e%d:b%d", k, evaluated, blocked))
+			wit := map[string]any{"burst": b, "max_attempts": max, "block": c12rlBlock.String(), "address": ad,
+				"attempts_of_the_burst": atts, "evaluated_of_address": evaluated, "blocked_of_address": blocked,
+				"bcrypt_cost": cost, "route": "POST /control/login on a fresh ServeMux filled by RegisterAuthHandlers()",
+				"note": "all attempts carry bad credentials and are released together; times in ns since the release"}
+			if evaluated > max {
+				rep.Violate("limiterrace:more-than-max-attempts-evaluated-in-a-burst:through-the-route",
+					fmt.Sprintf("%d of %d parallel bad logins from %s were evaluated (403) although max-attempts is %d", evaluated, k, ad, max), wit)
+				continue
+			}
+			if evaluated < max {
+				rep.Violate("limiterrace:blocked-before-max-failures:through-the-route",
+					fmt.Sprintf("only %d of %d bad logins from %s were evaluated although max-attempts is %d", evaluated, k, ad, max), wit)
+				continue
+			}
+			// Quiescence: the right password must be blocked too.
+			for _, which := range []string{"right", "wrong"} {
+				pw := "pw-slow"
+				if which == "wrong" {
+					pw = "pw-slowx"
+				}
+				code := send(ad+":31000", "slow", pw)
+				rep.Event("route_post_quiescence_attempts")
+				if code != http.StatusTooManyRequests {
+					wit["post_quiescence"] = map[string]any{"password": which, "status": code}
+					rep.Violate("limiterrace:login-evaluated-after-max-failures:post-quiescence:"+which+"-password:through-the-route",
+						fmt.Sprintf("after the burst a login with the %s password from %s was answered %d instead of 429", which, ad, code), wit)
+					break
+				}
+			}
+		}
+		if together {
+			rep.Event("route_bursts_with_attempts_in_flight_together")
+		}
+		sort.Strings(sig)
+		rep.Eval(together, fmt.Sprintf("R|max%d|%s", max, strings.Join(sig, ",")))
+		rep.Class(fmt.Sprintf("route:max=%d", max))
+		if b < 1 {
+			rep.Sample(map[string]any{"level": "route", "max_attempts": max, "attempts": atts})
 		}
 	}
 }
